@@ -383,7 +383,7 @@ func (e *env) system(rows []row) error {
 		uid := 0
 		for b := 0; b < nLoads; b++ {
 			var batch []string
-			n := 1 + rng.Intn(8)
+			n := 1 + rng.Intn(12)
 			for i := 0; i < n; i++ {
 				k := keySeq[rng.Intn(len(keySeq))]
 				uid++
@@ -394,7 +394,18 @@ func (e *env) system(rows []row) error {
 		}
 		picks := make([]*row, 0, nPreds)
 		for i := 0; i < nPreds; i++ {
-			picks = append(picks, &rows[rng.Intn(len(rows))])
+			a := &rows[rng.Intn(len(rows))]
+			if i%2 == 0 || a.Pred.K != "cmp" {
+				picks = append(picks, a)
+				continue
+			}
+			// compose two key comparisons (disjoint / overlapping / nested ranges inside one object)
+			b := &rows[rng.Intn(len(rows))]
+			for tries := 0; b.Pred.K != "cmp" && tries < 20; tries++ {
+				b = &rows[rng.Intn(len(rows))]
+			}
+			pa, pb := a.Pred, b.Pred
+			picks = append(picks, &row{Pred: pred{K: []string{"or", "and"}[rng.Intn(2)], L: &pa, R: &pb}})
 		}
 		if err := e.checkLayout(l, picks); err != nil {
 			return fmt.Errorf("layout %+v: %w", l, err)
